@@ -157,7 +157,11 @@ def run(ck):
               "a pending timer is forgotten without being cancelled (a stale timed event would fire)",
               sp, cancels[0].ast if cancels else sp.node, witness=path_witness(g, p))
 
-    with ck.section('R04.3'):
+    with ck.section('R04.0'):
+        from rules.fsmrun import fsm_run_obligations
+        fsm_run_obligations(ck, R3, ('timer',))
+
+    with ck.section('R04.3', backed_by='FSM._ctx_event', prefix='fsm:FSM._ctx_event'):
         # ------------------------------------------------------------------ R04.3
         ctx = m['_ctx_event']
         g = ck.cfg(ctx.fid, 'M0')
